@@ -6,6 +6,6 @@ if [ -n "$(git -C /repo status --porcelain -- qstrader)" ]; then echo "/repo is 
 trap 'git -C /repo checkout -- . >/dev/null 2>&1' EXIT
 git -C /repo apply "$P" || { echo "patch does not apply"; exit 8; }
 for prop in "$@"; do
-  ./check "$prop" --tier "${TIER:-quick}" > /tmp/w/mut_$prop.out 2>&1; rc=$?
+  PYVC_SCRATCH_EVIDENCE=1 ./check "$prop" --tier "${TIER:-quick}" > /tmp/w/mut_$prop.out 2>&1; rc=$?
   echo "== $prop exit=$rc"; grep -E "^(VIOLATION|KNOWN|  undecided|  CHECKER|  CANARY)" /tmp/w/mut_$prop.out | cut -c1-260 | head -${LINES_MAX:-8}; tail -1 /tmp/w/mut_$prop.out | grep -v "^  " | cut -c1-250
 done
